@@ -601,6 +601,130 @@ Proof.
   - now rewrite !H.
 Qed.
 
+(** The WHOLE-STATE executable model (Model/PrimEqFull.v: compute_diagnostic_state, explicit_terms,
+    implicit_terms as compositions of the concrete transforms of Model/SHT.v / Model/Deriv.v).
+    The operator hypotheses of [C12_modal_tendencies_covariant] are THEOREMS for the concrete
+    operators (the second scale sees the same grid with radius kL * r and rotation kr * Omega),
+    and hence the tendencies of the rescaled problem are the rescaled tendencies on every in-range
+    coefficient of vorticity, divergence, temperature and log surface pressure.
+    Change of scale of the state: vorticity/divergence * kr, temperature * kT, log surface pressure
+    shifted in the (0,0) coefficient; constants through [scale_cfg]; g * ku kr; orography * kL. *)
+From Dino Require Import Model.PrimEqFull Gen.DerivExprs Thm.PrimEqFull Thm.ScalingFull.
+
+Section C12_whole_state.
+  Context {F : Type} {o : Ops F} {Fc : FieldC o}.
+  Variables (ku kr kT kg kR kL : F).
+  Hypothesis H_rate : ku * kg = kr.
+  Hypothesis H_accel : kR * kT * kg = ku * kr.
+  Hypothesis H_len : kL * kg = 1.
+  Variable g : @HGrid F.
+  Hypothesis r_nz : hr g <> 0.
+  Hypothesis lit_nz : forall l, (1 <= l < hL g)%nat -> lit l <> (0 : F) /\ lit l + 1 <> (0 : F).
+  Notation g' := (rescale_grid kL kr g).
+
+  (** operator laws of the concrete transforms: every field, every size, every index *)
+  Theorem C12_concrete_operators_homogeneous :
+    (forall x w, toN_c g' x w = toN_c g x w) /\
+    (forall z w, toM_c g' z w = toM_c g z w) /\
+    (forall x w, clip_c g' x w = clip_c g x w) /\
+    (forall x y w, divc_c g' x y w = kg * divc_c g x y w) /\
+    (forall x y w, curlc_c g' x y w = kg * curlc_c g x y w) /\
+    (forall x w, lap_c g' x w = kg * kg * lap_c g x w) /\
+    (forall k f w, toM_c g (fun p => k * f p) w = k * toM_c g f w) /\
+    (forall k x y w, divc_c g (fun v => k * x v) (fun v => k * y v) w = k * divc_c g x y w) /\
+    (forall k x y w, curlc_c g (fun v => k * x v) (fun v => k * y v) w = k * curlc_c g x y w) /\
+    (forall k x w, lap_c g (fun v => k * x v) w = k * lap_c g x w) /\
+    (forall x y w, lap_c g (fun v => x v + y v) w = lap_c g x w + lap_c g y w) /\
+    (forall k x w, clip_c g (fun v => k * x v) w = k * clip_c g x w) /\
+    (forall v w, lap_c g (onem00 v) w = 0) /\
+    (forall x a l, Deriv.inverse_laplacian (hL g) (kL * hr g) x a l = kL * kL * Deriv.inverse_laplacian (hL g) (hr g) x a l) /\
+    (forall x a l, fst (gradm g' x) a l = kg * fst (gradm g x) a l /\ snd (gradm g' x) a l = kg * snd (gradm g x) a l) /\
+    (forall vo dv a l,
+        fst (uvm g' (fun a l => kr * vo a l) (fun a l => kr * dv a l)) a l = ku * fst (uvm g vo dv) a l /\
+        snd (uvm g' (fun a l => kr * vo a l) (fun a l => kr * dv a l)) a l = ku * snd (uvm g vo dv) a l).
+  Proof.
+    pose proof (concrete_operators_homogeneous kr kg kL H_len g r_nz) as (A1 & A2 & A3 & A4 & A5 & A6 & A7 & A8 & A9 & A10 & A11 & A12 & A13).
+    repeat (split; [assumption|]).
+    split; [intros; eapply invlap_radius; eassumption|].
+    split; [intros; eapply gradm_radius; eassumption|].
+    intros; eapply uvm_covariant; eassumption.
+  Qed.
+
+  Hypothesis feqb_iff : forall a b : F, feqb a b = true <-> a = b.
+  Hypothesis kT_nz : kT <> 0.
+  Hypothesis kR_nz : kR <> 0.
+  Variable c : @PEcfg F.
+  Hypothesis R_nz : cR c <> 0.
+  Variables (grav shift : F) (orog : nat -> nat -> F).
+  Notation c' := (scale_cfg kT kR c).
+  Notation Sst := (scale_state kr kT shift).
+
+  Theorem C12_whole_state_tendencies_covariant (s : @State F) k a l :
+    (k < cK c)%nat -> (a < hR g)%nat -> (l < hL g)%nat ->
+    let E := explicit_terms_full g c grav orog s in
+    let E' := explicit_terms_full g' c' (ku * kr * grav) (fun a l => kL * orog a l) (Sst s) in
+    let G := implicit_terms_full g c s in
+    let G' := implicit_terms_full g' c' (Sst s) in
+    (s_vort E' k a l = kr * kr * s_vort E k a l /\ s_div E' k a l = kr * kr * s_div E k a l /\
+     s_temp E' k a l = kT * kr * s_temp E k a l /\ s_lnps E' a l = kr * s_lnps E a l) /\
+    (s_vort G' k a l = kr * kr * s_vort G k a l /\ s_div G' k a l = kr * kr * s_div G k a l /\
+     s_temp G' k a l = kT * kr * s_temp G k a l /\ s_lnps G' a l = kr * s_lnps G a l).
+  Proof. intros Hk Ha Hl. eapply whole_state_tendencies_covariant; eassumption. Qed.
+
+  (** FULL statement not reached: for every integrator [step] of Model/Integrators.v applied to
+      F = explicit_terms_full, G = implicit_terms_full, Ginv = implicit_inverse_full:
+        step' (tau * dt) (Sst u) = Sst (step dt u)   on the index range.
+      Proved: the hypotheses HF and HG of [C12_step_covariant] coefficient by coefficient (this is
+      [C12_whole_state_tendencies_covariant] with 1/tau = kr) and the explicit update.  Missing: the
+      resolvent hypothesis HGinv for implicit_inverse_full (method 'split': only the left resolvent
+      identity is proved in Thm/PrimEqFull.v; for [inverse_stacked] on one coefficient column it IS
+      proved, see [C12_column_steps_covariant]), a VOps structure on State with Leibniz laws, and
+      the tracer fields.  The plugin checks the implicit solve and one IMEX step on the
+      implementation under two scales (runner whole_state_scales). *)
+  Theorem C12_whole_state_step_covariant_partial (tau : F) (s : @State F) dt k a l :
+    tau * kr = 1 -> (k < cK c)%nat -> (a < hR g)%nat -> (l < hL g)%nat ->
+    let u1 := forward_update (explicit_terms_full g c grav orog s) (implicit_terms_full g c s) s dt in
+    let u1' := forward_update (explicit_terms_full g' c' (ku * kr * grav) (fun a l => kL * orog a l) (Sst s))
+                              (implicit_terms_full g' c' (Sst s)) (Sst s) (tau * dt) in
+    s_vort u1' k a l = s_vort (Sst u1) k a l /\ s_div u1' k a l = s_div (Sst u1) k a l /\
+    s_temp u1' k a l = s_temp (Sst u1) k a l /\ s_lnps u1' a l = s_lnps (Sst u1) a l.
+  Proof. intros Ht Hk Ha Hl. eapply whole_state_step_covariant_partial; eassumption. Qed.
+End C12_whole_state.
+
+(** Non-vacuity of the whole-state hypotheses over Qc: ku = 3, kg = 2, kr = 6, kL = 1/2, kT = 5,
+    kR = 9/5, tau = 1/6; a grid with 3 total wavenumbers and radius 2 (tables irrelevant for the
+    hypotheses); the characteristic condition for l = 1, 2; and the operator law for the Laplacian
+    evaluated on a concrete coefficient (l = 2: eigenvalue -6/4 under the first, -6 under the second scale). *)
+Example C12_whole_state_hyps_satisfiable :
+  let q := fun z : Q => Q2Qc z in
+  let ku := q 3 in let kg := q 2 in let kr := q 6 in let kL := q (1 # 2) in let kT := q 5 in let kR := q (9 # 5) in
+  let tau := q (1 # 6) in
+  let z2 := fun _ _ : nat => q 0 in
+  let g := mkHG 2 3 4 3 (q 2) z2 (fun _ => z2) (fun _ => q 1) z2 z2 (fun _ => q 1) (fun _ => q 0) (q (1 # 10)) in
+  ku * kg = kr /\ kR * kT * kg = ku * kr /\ kL * kg = 1 /\ tau * kr = 1 /\ kT <> 0 /\ kR <> 0 /\ hr g <> 0 /\
+  (forall l, (1 <= l < hL g)%nat -> lit l <> (0 : Qc) /\ lit l + 1 <> (0 : Qc)) /\
+  (forall a b : Qc, feqb a b = true <-> a = b) /\
+  lapm g (fun _ _ => q 1) 0%nat 2%nat = q (- 3 # 2) /\
+  lapm (rescale_grid kL kr g) (fun _ _ => q 1) 0%nat 2%nat = kg * kg * lapm g (fun _ _ => q 1) 0%nat 2%nat.
+Proof.
+  cbv zeta.
+  split; [apply Qc_is_canon; vm_compute; reflexivity|].
+  split; [apply Qc_is_canon; vm_compute; reflexivity|].
+  split; [apply Qc_is_canon; vm_compute; reflexivity|].
+  split; [apply Qc_is_canon; vm_compute; reflexivity|].
+  split; [intro H; vm_compute in H; discriminate H|].
+  split; [intro H; vm_compute in H; discriminate H|].
+  split; [intro H; vm_compute in H; discriminate H|].
+  split.
+  { intros l Hl. cbn [hL] in Hl.
+    destruct l as [|[|[|l]]]; try (exfalso; lia); split; intro H; vm_compute in H; discriminate H. }
+  split.
+  { intros a b. split.
+    - intros H. apply Qc_is_canon. now apply Qeq_bool_eq.
+    - intros ->. apply Qeq_bool_iff. reflexivity. }
+  split; apply Qc_is_canon; vm_compute; reflexivity.
+Qed.
+
 Print Assumptions C12_factor_homomorphism.
 Print Assumptions C12_welldim_homogeneous.
 Print Assumptions C12_scale_independence.
@@ -623,3 +747,7 @@ Print Assumptions C12_hyps_satisfiable.
 Print Assumptions C12_column_hyps_satisfiable.
 Print Assumptions C12_held_suarez_hyps_satisfiable.
 Print Assumptions C12_modal_hyps_satisfiable.
+Print Assumptions C12_concrete_operators_homogeneous.
+Print Assumptions C12_whole_state_tendencies_covariant.
+Print Assumptions C12_whole_state_step_covariant_partial.
+Print Assumptions C12_whole_state_hyps_satisfiable.
